@@ -86,6 +86,26 @@ class SByteDevice(Device):
         pass
 
 
+class FaultyDevice(Device):
+    """a device whose update() raises in one cycle (a division by an input
+    that is 0, a value that does not fit its variable); it runs after the
+    other devices of the group"""
+    sb = TerminalVar()
+
+    def __init__(self, t, at):
+        self.sb = PacketVar(t, SyncManager.IN, 0, "B")
+        self.at = at
+        self.n = 0
+
+    def update(self):
+        self.n += 1
+        if self.n == self.at:
+            return 1 // 0
+
+    def program(self):
+        pass
+
+
 class CmdDevice(Device):
     """an output that is not driven from update() but commanded from
     outside (another task, a GUI) between two cycles"""
@@ -130,6 +150,8 @@ def gen_case(rng):
                                        "+256"]) for _ in range(ncyc + 4)],
                 restart=rng.random() < 0.35,
                 regroup=rng.random() < 0.5,
+                # a device whose update raises in that cycle
+                faulty=rng.choice([None] * 6 + [2, 3, 5]),
                 rseed=rng.getrandbits(32))
 
 
@@ -208,9 +230,13 @@ def run_case(case):
         sbdevs = [(ti, SByteDevice(t))
                   for ti, (t, d) in enumerate(zip(ts, case["terms"]))
                   if d["isz"] >= 2][:2]
+        faulty = []
+        if case.get("faulty"):
+            ti_f = [ti for ti, d in enumerate(case["terms"]) if d["isz"]][:1]
+            faulty = [FaultyDevice(ts[ti], case["faulty"]) for ti in ti_f]
         sg = SyncGroup(ec, devs + [bd for _, bd in bitdevs]
                        + [cd for _, cd in cmddevs]
-                       + [sd for _, sd in sbdevs])
+                       + [sd for _, sd in sbdevs] + faulty)
         orig = sg.update_devices
 
         def command(ti, cd, value):
@@ -249,7 +275,7 @@ def run_case(case):
                     # object (a re-configuration) once the first has ended
                     sg = SyncGroup(ec, devs + [bd for _, bd in bitdevs]
                                    + [cd for _, cd in cmddevs]
-                                   + [sd for _, sd in sbdevs])
+                                   + [sd for _, sd in sbdevs] + faulty)
                     orig = sg.update_devices
                     sg.update_devices = upd
             h_ = hists[-1]
@@ -299,6 +325,27 @@ def check_case(case, res):
 
 def check_run(case, hist, res, seg):
     res.count("cycles", len(hist["updates"]))
+    if case.get("faulty") and "ZeroDivisionError" in hist.get(
+            "task_error", ""):
+        # the device's failure ended the run; whatever was sent until then
+        # went out with cleared counters
+        res.count("runs_ended_by_a_failing_device")
+        first_done = None
+        for c in hist["cyc"]:
+            if not c["lost"]:
+                first_done = c["k"]
+                break
+        for c in hist["cyc"]:
+            if first_done is None or c["k"] <= first_done:
+                continue
+            res.count("frames_counter_checked")
+            if any(c["sent_wkc"]):
+                res.violation("unexplained:counters-not-cleared",
+                              f"frame {c['k']} was sent with counters "
+                              f"{c['sent_wkc']} (a device's update had "
+                              f"raised)", case=case)
+                return False
+        return None
     if "task_error" in hist:
         res.violation("unexplained:run-failed", hist["task_error"],
                       case=case, witness=hist["logs"][:5])
